@@ -7,8 +7,8 @@ PROP = "C11"
 SIZES = dict(quick=dict(sample=120, cap=140, flips=4, grid="quick"), thorough=dict(sample=2000, cap=1200, flips=8, grid="thorough"))
 # inner types of transparent variants: (field type key, AsRef<str> available, Into<&'static str> available)
 TRANSP = [("String", True, False), ("sstr", True, True), ("i32", False, False), ("u8", False, False), ("i64", False, False),
-          ("char", False, False), ("bool", False, False), ("boxstr", True, False)]
-DEFAULT_INNER = ["String", "boxstr"]
+          ("char", False, False), ("bool", False, False), ("boxstr", True, False), ("trickystr", True, False), ("trickystr", True, False)]
+DEFAULT_INNER = ["String", "boxstr", "trickystr"]
 
 
 def model(tier):
